@@ -637,6 +637,19 @@ def gen_head_reps(out):
     out.append('Definition rep_args_separator_gen : string := %s.' % coq_str(ast.literal_eval(m.group(1))))
 
 
+def gen_show(out):
+    """transformers/program.py: visit_ShowSignature / visit_ProjectSignature"""
+    out.append('(* ---- transformers/program.py: #show / #project signatures ---- *)')
+    # #show p/n. and #project p/n.: the arity counts the time stamp - for both classical signs (the statement is `sig.arity += <k>` and nothing else)
+    for name, gname in (('visit_ShowSignature', 'show_arity_gen'), ('visit_ProjectSignature', 'project_arity_gen')):
+        fn = find_fun(parse('telingo/transformers/program.py'), name, 'ProgramTransformer')
+        b = [x for x in fn.body if not (isinstance(x, ast.Expr) and isinstance(x.value, ast.Constant))]
+        if not (len(b) == 2 and isinstance(b[0], ast.AugAssign) and isinstance(b[0].op, ast.Add) and ast.unparse(b[0].target) == 'sig.arity' and isinstance(b[0].value, ast.Constant)
+                and isinstance(b[0].value.value, int) and b[0].value.value >= 0 and ast.unparse(b[1]) == 'return sig'):
+            raise Unsupported('%s: %s' % (name, ' / '.join(ast.unparse(x) for x in b)))
+        out.append('Definition %s (arity : nat) : nat := arity + %d.' % (gname, b[0].value.value))
+
+
 # ------------------------------------------------------------------------------------------------ #program directives
 def gen_parts(out):
     """transformers/program.py: ProgramTransformer.visit_Program - straight-line code over prg.name / self.__final / self.__part with one-armed
@@ -707,14 +720,6 @@ def gen_parts(out):
     ini = {ast.unparse(x.targets[0]): x.value for x in init.body if isinstance(x, ast.Assign) and len(x.targets) == 1}
     if 'self.__final' not in ini or 'self.__part' in ini:
         raise Unsupported('ProgramTransformer.__init__: __final is set there, __part is not (it exists only after the first directive)')
-    # #show p/n. and #project p/n.: the arity counts the time stamp - for both classical signs (the statement is `sig.arity += <k>` and nothing else)
-    for name, gname in (('visit_ShowSignature', 'show_arity_gen'), ('visit_ProjectSignature', 'project_arity_gen')):
-        fn = find_fun(parse('telingo/transformers/program.py'), name, 'ProgramTransformer')
-        b = [x for x in fn.body if not (isinstance(x, ast.Expr) and isinstance(x.value, ast.Constant))]
-        if not (len(b) == 2 and isinstance(b[0], ast.AugAssign) and isinstance(b[0].op, ast.Add) and ast.unparse(b[0].target) == 'sig.arity' and isinstance(b[0].value, ast.Constant)
-                and isinstance(b[0].value.value, int) and b[0].value.value >= 0 and ast.unparse(b[1]) == 'return sig'):
-            raise Unsupported('%s: %s' % (name, ' / '.join(ast.unparse(x) for x in b)))
-        out.append('Definition %s (arity : nat) : nat := arity + %d.' % (gname, b[0].value.value))
     out.append('(* ProgramTransformer.__init__: the final flag before the first directive (there is no part before the first directive) *)\nDefinition initial_final_gen : bool := %s.' % bval(ini['self.__final']))
 
 
@@ -1807,6 +1812,7 @@ GROUPS = {
     'app': ('FromApp.v', [gen_app], ['GenPrelude']),
     'loc': ('FromLoc.v', [gen_loc], ['GenPrelude']),
     'parts': ('FromParts.v', [gen_parts], ['GenPrelude']),
+    'show': ('FromShow.v', [gen_show], ['GenPrelude']),
     'reps': ('FromReps.v', [gen_reps, gen_head_reps], ['GenPrelude']),
     'tables': ('FromTables.v', [gen_tables], ['GenPrelude']),
     'theory': ('FromTheory.v', [gen_theory], ['GenPrelude', 'TheoryPrelude']),
